@@ -242,10 +242,50 @@ func Execute(r *Run, body func(*Run)) {
 			if _, ok := p.(stopRun); ok {
 				return
 			}
-			r.HarnessErr = fmt.Sprintf("panic outside a monitored call: %v\n%s", p, debug.Stack())
+			stack := string(debug.Stack())
+			// A panic raised beneath the code under test (no harness frame between the panic and the
+			// repository's function) is a finding about that code, not trouble in the harness.
+			if fn := panickedInRepo(stack); fn != "" && r.Viol == nil {
+				if r.Evals == 0 {
+					r.Evals = 1
+				}
+				r.Eventf("VIOLATION run-crashed %s", fn)
+				r.Viol = &Violation{Property: r.Property, Class: "run-crashed", Key: fn, Detail: fmt.Sprintf("the code under test panicked in %s: %v", fn, p)}
+				return
+			}
+			r.HarnessErr = fmt.Sprintf("panic outside a monitored call: %v\n%s", p, stack)
 		}
 	}()
 	body(r)
+}
+
+// panickedInRepo reads a stack trace taken in a deferred recover: it returns the repository
+// function the panic was raised in or beneath, or "" when a harness frame comes first.
+func panickedInRepo(stack string) string {
+	lines := strings.Split(stack, "\n")
+	seenPanic := false
+	for _, l := range lines {
+		if strings.HasPrefix(l, "\t") || l == "" {
+			continue
+		}
+		if !seenPanic {
+			seenPanic = strings.HasPrefix(l, "panic(")
+			continue
+		}
+		switch {
+		case strings.HasPrefix(l, "verifsim/"):
+			return ""
+		case strings.HasPrefix(l, "github.com/google/gce-tcb-verifier/"):
+			fn := l[strings.LastIndex(l, "/")+1:]
+			if i := strings.IndexByte(fn, '('); i > 0 && !strings.HasPrefix(fn[i:], "(*") {
+				fn = fn[:i]
+			} else if j := strings.LastIndexByte(fn, '('); j > 0 {
+				fn = fn[:j]
+			}
+			return fn
+		}
+	}
+	return ""
 }
 
 func hash64(s string) uint64 {
